@@ -90,13 +90,21 @@ func runC13(src sim.Source, o Opts) *Result {
 		opts = append(opts, fox.DefaultOptions())
 		res.inc("config_default_options")
 	}
-	cfg := world.Cfg{NoMethod: true, AutoOptions: true, GlobalTS: 2}
+	// trailing-slash redirection: router-wide, or switched on by the routes themselves (global setting off or "ignore")
+	globalTS := sim.Pick(src, "globalts", []int{2, 0, 1})
+	routeTS := 0
+	if globalTS != 2 {
+		routeTS = 2
+	}
+	cfg := world.Cfg{NoMethod: true, AutoOptions: true, GlobalTS: globalTS}
 	w, err := world.Build(cfg, opts...)
 	if err != nil {
 		res.Trouble = err.Error()
 		return res
 	}
 	res.Case["global_middleware"] = fmt.Sprint(glob)
+	res.Case["trailing_slash"] = fmt.Sprintf("global=%d per-route=%d", globalTS, routeTS)
+	res.inc(fmt.Sprintf("config_global_ts_%d", globalTS))
 
 	type rdef struct {
 		Method  string
@@ -130,7 +138,7 @@ func runC13(src sim.Source, o Opts) *Result {
 				if i%ntasks != t {
 					continue
 				}
-				ropts := world.FoxOpts(r.Tag, world.RouteOpt{MW: r.MW})
+				ropts := world.FoxOpts(r.Tag, world.RouteOpt{MW: r.MW, TS: routeTS})
 				if r.Via == "handle" {
 					if _, err := w.R.Handle(r.Method, r.Pattern, world.Handler(r.Tag), ropts...); err != nil {
 						errs[t] = err.Error()
@@ -242,7 +250,7 @@ func runC13(src sim.Source, o Opts) *Result {
 		if src.Intn("updatenone", 2) == 1 {
 			newMW = nil
 		}
-		if _, err := w.R.Update(r0.Method, r0.Pattern, world.Handler(r0.Tag), world.FoxOpts(r0.Tag, world.RouteOpt{MW: newMW})...); err != nil {
+		if _, err := w.R.Update(r0.Method, r0.Pattern, world.Handler(r0.Tag), world.FoxOpts(r0.Tag, world.RouteOpt{MW: newMW, TS: routeTS})...); err != nil {
 			res.Trouble = "update failed: " + err.Error()
 			return res
 		}
